@@ -142,11 +142,11 @@ func c03Enumerate(tier string, worker, nworkers int, yield func(Scenario) bool) 
 	}
 }
 
-var c03Words = []string{"foo", "bar", "baz", "ERROR", "WARN", "info", "x", "42", "7", "a b", "", " ", "foo.bar", "[x]", "a|b", "tail$", "^head"}
+var c03Words = []string{"a  b", "tab\there", "foo", "bar", "baz", "ERROR", "WARN", "info", "x", "42", "7", "a b", "", " ", "foo.bar", "[x]", "a|b", "tail$", "^head"}
 
 var c03Regexes = []string{"foo", "bar|baz", "^\\d+ foo", "ERROR$", "x$", "^\\d+ $", "\\s$", "[^ ]$", "fo+", "ba[rz]", "(?i)error", "\\d\\d", "a b",
 	"^\\d+ (foo|bar)", "foo.*bar", "\\.", "\\[x\\]", "a\\|b", "tail\\$", "\\^head", "\\bfoo\\b", "o{2}", "[[:upper:]]+", "^.{0,4}$", "\\n", "(?m)foo$", "^[^\\n]*$",
-	".", ".*", "\\S+ \\S+ \\S+", "7|42", "^\\d+ *$"}
+	".", ".*", "\\S+ \\S+ \\S+", "7|42", "^\\d+ *$", "  ", "a  b", "foo ", " foo", "\t", "o  b", " $", "^\\d+  "}
 
 func c03Gen(r *Rand, tier string, i int) Scenario {
 	sc := &C03Scenario{}
@@ -174,7 +174,7 @@ func c03Gen(r *Rand, tier string, i int) Scenario {
 		// bare lines (no running number in front) from a small pool in which one
 		// line is a proper substring of others, and a pattern derived from one of
 		// the lines: the whole line, anchored or not, a prefix, a suffix
-		pool := []string{"foo", "foo bar", "a foo b", "foobar", "xfoo", "", "bar", "ERROR", "error: foo", "42", "x", "foo", "4 2", "a.b", "aXb"}
+		pool := []string{"foo", "foo bar", "a foo b", "foobar", "xfoo", "", "bar", "ERROR", "error: foo", "42", "x", "foo", "4 2", "a.b", "aXb", "a  b", "foo ", " foo", "foo\tbar"}
 		sc.Lines = nil
 		for k := 0; k < n; k++ {
 			sc.Lines = append(sc.Lines, pool[r.Intn(len(pool))])
